@@ -333,6 +333,11 @@ def run_case(case):
                     v('auto-mode-receiver-figures', f'receiver GSNR after the mode loop {np.array(pp[-1].snr_01nm)[:2]} vs '
                       f'model for {expected} {g[:2]}')
                 if case['bidir']:
+                    # the reverse direction of the automatic request is the reverse direction of the chosen mode
+                    frp = by_id['fix_' + expected][2]
+                    if rp and frp and not np.allclose(np.array(rp[-1].snr_01nm), np.array(frp[-1].snr_01nm), rtol=0, atol=1e-6):
+                        v('auto-mode-reverse-figures', f'chosen {expected}: reverse-direction GSNR of the automatic request '
+                          f'{np.array(rp[-1].snr_01nm)[:2]} differs from the same mode imposed {np.array(frp[-1].snr_01nm)[:2]}')
                     rev_block = round(metric[expected][1], 2) < lib_mode['OSNR'] + margin
                     if (reason == 'MODE_NOT_FEASIBLE') != rev_block:
                         v('auto-mode-reverse-verdict', f'chosen {expected}: reverse metric {metric[expected][1]:.3f} threshold '
